@@ -626,9 +626,12 @@ func (e *c19Env) readCase(a *c19Accepted, coqExit, name string, doc []byte, ok b
 	}
 	for k, n := range seen {
 		if n > 1 {
+			if splice && c19CountKey(a.storedM, k) == n {
+				continue // the stored text has the name that often (an imported / pushed text with duplicates); nothing was added
+			}
 			if _, dupInStored := stored[k]; dupInStored && c19ReadKeys[k] {
 				e.fail("read_is_stored_plus_metadata", "stored-cv-clashes-with-injected-cv", desc, fmt.Sprintf("the response has the member %q twice: %s", k, c19Short(doc)))
-			} else if !(splice && c19CountKey(a.storedM, k) == n) {
+			} else {
 				e.fail("read_is_stored_plus_metadata", "read-duplicate-member:"+k, desc, fmt.Sprintf("the response has the member %q %d times: %s", k, n, c19Short(doc)))
 			}
 		}
@@ -644,6 +647,13 @@ func (e *c19Env) readCase(a *c19Accepted, coqExit, name string, doc []byte, ok b
 			}
 		case got != v:
 			e.fail("read_is_stored_plus_metadata", "read-alters-stored-member:"+name, desc, fmt.Sprintf("stored member %q = %s comes back as %s", k, v, got))
+		}
+	}
+	if name != "blip_pull" {
+		for _, k := range []string{"_id", "_rev"} {
+			if _, has := out[k]; !has {
+				e.fail("read_is_stored_plus_metadata", "read-missing-injected:"+k, desc, fmt.Sprintf("the response lacks the reserved property %q: %s", k, c19Short(doc)))
+			}
 		}
 	}
 	for k := range out {
@@ -682,7 +692,7 @@ func (e *c19Env) readAll(a *c19Accepted, all bool) {
 // ---------------------------------------------------------------- corpus
 
 func c19AM(key, kind string, i int) c19AMember {
-	val := map[string]string{"KNull": "null", "KTrue": "true", "KFalse": "false", "KNum": fmt.Sprint(7 + i), "KStr": fmt.Sprintf(`"s%d"`, i), "KObj": "{}"}[kind]
+	val := map[string]string{"KNull": "null", "KTrue": "true", "KFalse": "false", "KNum": fmt.Sprint(1000 + i), "KStr": fmt.Sprintf(`"s%d"`, i), "KObj": "{}"}[kind]
 	return c19AMember{key: key, kind: kind, val: val}
 }
 
@@ -697,7 +707,7 @@ func c19HostileCorpus() []c19ATop {
 	for _, s := range []string{`{ "a":7,}`, `{ "a" 7}`, `{ a:7}`, "\xef\xbb\xbf{}", `{ "a":tru}`, `{ "a":7,"a"}`, `{ 'a':7}`} {
 		out = append(out, c19ATop{shape: "invalid", text: s})
 	}
-	for _, s := range []string{`[]`, `[{"a":7}]`, `"s"`, `7`, `true`, `false`, `-1.5e3`, ` [ ] `} {
+	for _, s := range []string{`[]`, `[{"a":1000}]`, `"s"`, `7`, `true`, `false`, `-1.5e3`, ` [ ] `} {
 		out = append(out, c19ATop{shape: "nonobj", text: s})
 	}
 	for _, s := range []string{`null`, ` null `, "null\n"} {
